@@ -405,5 +405,7 @@ def gen_steps(rng, dump, max_len=6):
                   "same": chosen[max(1, k2 - 1):] if k2 > 1 else []}
         if st["op"] in ("vis", "camel", "sdir") and on != 0 and rng.random() < 0.3:
             st["inplace"] = True                      # visitor applied without clone to an earlier result
+        if rng.random() < 0.5:
+            st["use"] = True                          # the target is used (variables coerced, derived maps read) first
         steps.append(st)
     return steps
